@@ -276,13 +276,13 @@ def kindOfCode : Nat → Kind
 def bit (c i : Nat) : Bool := (c >>> i) % 2 == 1
 
 /-- node cell layout (bits): kind 0-3, root 4, suppress 5, eolterm 6, has-sep 7, tok 8-19,
-sep 20-31, number of kids 32-35, kids 36… (12 bits each).  `ws`/`skipws` overrides are not
+sep 20-31, number of kids 32-39, kids 40… (12 bits each, at most 18).  `ws`/`skipws` overrides are not
 representable (the translator refuses such graphs). -/
 def decodeNode (c : Nat) : Node :=
   { kind := kindOfCode (c % 16), root := bit c 4, suppress := bit c 5, eolterm := bit c 6,
     sep := if bit c 7 then some ((c >>> 20) % 4096) else none,
     tok := (c >>> 8) % 4096,
-    kids := unpack 12 ((c >>> 32) % 16) (c >>> 36) }
+    kids := unpack 12 ((c >>> 32) % 256) (c >>> 40) }
 
 def nodeWidth : Nat := 256
 
